@@ -125,6 +125,11 @@ MUTS = {
  "multiple_bases_ok": [(T, """            if len(bases) > 1:
                 raise RenderArgsDataError("Multiple base classes")
 """, "")],
+ # the coordinator's seeded regression /verif/seeded/C16-s2: a namespace argument that IS the
+ # shared default instance (extracted from a set) is skipped as "already in place"
+ "skip_shared_default": [(T, "            namespaces_dict[namespace._RENDER_CLS] = namespace\n",
+     "            if namespace is not render_cls._ALL_DEFAULT_ARGS[namespace._RENDER_CLS]:\n"
+     "                namespaces_dict[namespace._RENDER_CLS] = namespace\n")],
  "nshash_no_cls": [(T, """        return hash(
             (
                 type(self)._RENDER_CLS,
